@@ -308,7 +308,8 @@ func (j *jsonReader) Tag() int {
 		return 0
 	}
 	if strings.HasPrefix(rawTag, "0x") {
-		parsedTag, err := strconv.ParseInt(rawTag[2:], 16, 32)
+		// A tag is 3 bytes long: reject negative or larger values
+		parsedTag, err := strconv.ParseUint(rawTag[2:], 16, 24)
 		if err != nil {
 			// TODO: return error
 			return 0
